@@ -6,13 +6,30 @@ use std::io::{BufRead, Write};
 
 use chumsky::error::Cheap;
 use chumsky::extra;
-use chumsky::input::{SliceInput, StrInput, ValueInput};
+use chumsky::input::{Checkpoint, Cursor, Input};
+use chumsky::inspector::Inspector;
 use chumsky::prelude::*;
-use chumsky::text::{self, Char};
+use chumsky::text;
 
 use crate::ast::all_strings;
 
-type Ex = extra::Err<Cheap>;
+/// counts the tokens it is fed (C18: every consumed token must pass through `on_token`, also inside the text parsers)
+#[derive(Clone, Copy, Default)]
+pub struct CountInsp(pub usize);
+impl<'src, I: Input<'src>> Inspector<'src, I> for CountInsp {
+    type Checkpoint = usize;
+    fn on_token(&mut self, _: &I::Token) {
+        self.0 += 1;
+    }
+    fn on_save<'parse>(&self, _: &Cursor<'src, 'parse, I>) -> usize {
+        self.0
+    }
+    fn on_rewind<'parse>(&mut self, marker: &Checkpoint<'src, 'parse, I, usize>) {
+        self.0 = *marker.inspector();
+    }
+}
+
+type Ex = extra::Full<Cheap, CountInsp, ()>;
 
 fn nat_list(toks: &[&str], i: &mut usize) -> Vec<u32> {
     let n: usize = toks[*i].parse().unwrap();
@@ -48,13 +65,14 @@ fn observe_str<'a>(
     input: &'a str,
 ) -> String {
     let full = p.then(any().repeated().to_slice());
-    match full.parse(input).into_result() {
+    let mut insp = CountInsp::default();
+    match full.parse_with_state(input, &mut insp).into_result() {
         Ok((s, rest)) => {
             let idx = |ptr: *const u8| input[..(ptr as usize - input.as_ptr() as usize)].chars().count();
             let st = idx(s.as_ptr());
             let en = st + s.chars().count();
             let r = idx(rest.as_ptr());
-            format!("ok {st} {en} {r}")
+            format!("ok {st} {en} {r} i{}", insp.0)
         }
         Err(_) => "none".to_string(),
     }
@@ -62,12 +80,13 @@ fn observe_str<'a>(
 
 fn observe_u8<'a>(p: impl Parser<'a, &'a [u8], &'a [u8], Ex>, input: &'a [u8]) -> String {
     let full = p.then(any().repeated().to_slice());
-    match full.parse(input).into_result() {
+    let mut insp = CountInsp::default();
+    match full.parse_with_state(input, &mut insp).into_result() {
         Ok((s, rest)) => {
             let st = s.as_ptr() as usize - input.as_ptr() as usize;
             let en = st + s.len();
             let r = rest.as_ptr() as usize - input.as_ptr() as usize;
-            format!("ok {st} {en} {r}")
+            format!("ok {st} {en} {r} i{}", insp.0)
         }
         Err(_) => "none".to_string(),
     }
